@@ -75,10 +75,12 @@ namespace nmtools::index
             // not valid
         }
         else {
+            // negative axis counts from the last axis
+            auto m_axis = (nm_size_t)(((long long)axis < 0) ? ((long long)axis + (long long)ad) : (long long)axis);
             // TODO: do not use tuple_at
-            auto aa = tuple_at(ashape,axis);
-            auto ba = tuple_at(bshape,axis);
-            auto ia = tuple_at(indices,axis);
+            auto aa = tuple_at(ashape,m_axis);
+            auto ba = tuple_at(bshape,m_axis);
+            auto ia = tuple_at(indices,m_axis);
             // todo error handling for other axis
             if (ia<aa) {
                 aflag = true;
@@ -88,12 +90,11 @@ namespace nmtools::index
             }
             // also take account for offset
             else if (ia<(ba+aa)) {
-                using idx_t = meta::promote_index_t<size_t,axis_t>;
                 bflag = true;
                 // select ashape, must apply offset from ashape
                 for (size_t i=0; i<bd; i++) {
                     // TODO: do not use tuple_at
-                    if (static_cast<idx_t>(i)==static_cast<idx_t>(axis))
+                    if ((nm_size_t)i==m_axis)
                         at(b_indices,i) = tuple_at(indices,i) - aa;
                     else at(b_indices,i) = tuple_at(indices,i);
                 }
@@ -191,11 +192,12 @@ namespace nmtools::index
                 at(ret,0_ct) = na + nb;
             }
             else if (ad==bd) {
-                using idx_t = meta::promote_index_t<size_t,axis_t>;
+                // negative axis counts from the last axis
+                auto m_axis = ((long long)axis < 0) ? ((long long)axis + (long long)ad) : (long long)axis;
                 auto shape_concatenate_impl = [&](auto i){
                     auto ai = at(ashape,i);
                     auto bi = at(bshape,i);
-                    if (static_cast<idx_t>(i)==static_cast<idx_t>(axis)) {
+                    if ((long long)i==m_axis) {
                         at(ret,i) = ai + bi;
                     }
                     // TODO: consider to provide platform dependent index_t
